@@ -232,6 +232,12 @@ Fixpoint sg (fuel : nat) (str : option bool) (sz : option Z) (t : ty) (lists : l
       match items with
       | [] => Ok (TList sz str t, map (fun o => match o with Some l => mk_list str l | None => VNone end) lists)
       | IAt i :: tail =>
+          (* a missing list met by an integer that will be broadcast with a later index array (no array seen yet):
+             where the new dimension goes is not specified (same rule as in the IArray case below) *)
+          if (match adv with None => true | Some _ => false end)
+             && existsb (fun o : option (list value) => match o with None => true | Some _ => false end) lists
+             && existsb (fun it => match it with IArray _ => true | _ => false end) tail
+          then Err EFuel else
           do _ <- (match sz with Some n => rmap (fun _ => tt) (wrap_at n i) | None => Ok tt end);
           do xs <- mapM (fun l => do j <- wrap_at (zlen l) i; get l j)
                         (flat_map (fun o : option (list value) => match o with Some l => [l] | None => [] end) lists);
